@@ -219,7 +219,19 @@ func ConfigClosure(w *world.World, raws []json.RawMessage) ([]interface{}, error
 				_ = ioutil.WriteFile(file, []byte("admin:\n  remark: written by somebody else\n"), 0600)
 				e2 := config.Write(pc)
 				back2, rerr2 := config.Read()
-				o["historyOk"] = e2 == nil && rerr2 == nil && cfEqual(pc, back2)
+				hok := e2 == nil && rerr2 == nil && cfEqual(pc, back2)
+				// the configuration that was read is edited in place into one that is not closed, saving it is refused:
+				// what is read afterwards is still what was saved
+				if hok && len(back2.Servers) > 0 {
+					back2.Servers[0].Cache = "no-such-cache"
+					if len(back2.Locations) > 0 {
+						back2.Locations[0].Upstream = "no-such-upstream"
+					}
+					e3 := config.Write(back2)
+					back3, rerr3 := config.Read()
+					hok = e3 != nil && rerr3 == nil && cfEqual(pc, back3)
+				}
+				o["historyOk"] = hok
 			}
 			// apply as main.update does and ask every server
 			apply(pc)
